@@ -424,3 +424,35 @@ def run_replay(fam, rp):
         return 2
     finally:
         ctx.cleanup()
+
+
+def run_composite(fams, prop, tier):
+    """a property decided on the traces of several families: run each, merge the evidence, worst exit code wins"""
+    p = os.path.join(EVIDENCE, prop + ".json")
+    rcs, evs = [], []
+    for fam in fams:
+        rcs.append(run_check(fam, prop, tier))
+        if os.path.exists(p):
+            evs.append(json.load(open(p)))
+    if len(evs) == len(fams) and evs:
+        ev1 = evs[0]
+        c1 = ev1["coverage"]
+        for ev2 in evs[1:]:
+            c2 = ev2["coverage"]
+            for k in ("states", "transitions", "traces_validated_against_impl", "evaluations", "distinct_nontrivial", "drift"):
+                c1[k] = c1.get(k, 0) + c2.get(k, 0)
+            c1["model_checking"] = c1.get("model_checking", []) + c2.get("model_checking", [])
+            c1["rule"] = c1.get("rule", "") + " || " + c2.get("rule", "")
+            c1["samples"] = (c1.get("samples", []) + c2.get("samples", []))[:3]
+            c1["known_findings_hit"] = sorted(set(c1.get("known_findings_hit", []) + c2.get("known_findings_hit", [])))
+            ts = dict(c1.get("trace_sources", {}))
+            for k, v in c2.get("trace_sources", {}).items():
+                ts[k] = ts.get(k, 0) + v
+            c1["trace_sources"] = ts
+            ev1["violations"] = ev1.get("violations", 0) + ev2.get("violations", 0)
+            ev1["wall_s"] = round(ev1.get("wall_s", 0) + ev2.get("wall_s", 0), 2)
+            ev1["assumptions"] = ev1.get("assumptions", []) + [a for a in ev2.get("assumptions", []) if a not in ev1.get("assumptions", [])]
+        tmp = p + ".tmp"
+        json.dump(ev1, open(tmp, "w"), indent=1)
+        os.replace(tmp, p)
+    return 1 if 1 in rcs else (2 if 2 in rcs else 0)
